@@ -85,9 +85,13 @@ SYMBOL_KINDS = ('func', 'var', 'dconst', 'iconst')     # ABI: resolved by dlsym(
 
 # ---- identifier sets ---------------------------------------------------------
 
+# identifiers that the lib object also answers itself when nothing of that name is declared
+LIB_SPECIAL = ['__name__', '__loader__', '__spec__', '__class__']
+
+
 def ok_name(s, avoid=()):
     return (IDRE.match(s) is not None and len(s) <= 300 and s not in KEYWORDS and
-            not s.startswith(('__', '_cffi', '_CFFI')) and s not in avoid)
+            (not s.startswith(('__', '_cffi', '_CFFI')) or s in LIB_SPECIAL) and s not in avoid)
 
 
 def mutate(rng, s, alpha):
@@ -134,6 +138,8 @@ def gen_pool(rng, n, avoid=(), seeds=()):
             s = rng.choice(['struct', 'union', 'enum']) + rng.choice(
                 ['_', 's', 'ure', 'erate', '_info', '0', 'S', '_t', 'x_t', '_find_t']) + \
                 rng.choice(['', '', rng.choice(alpha)])
+        elif r < 0.318:
+            s = rng.choice(LIB_SPECIAL)
         elif r < 0.33:
             # long identifiers sharing a long prefix (longer than any '%.200s' in the lookup code)
             base = rng.choice(lst) if lst and rng.random() < 0.7 else rng.choice(first)
@@ -157,7 +163,7 @@ def neighbours(rng, s):
 
 
 def probes(rng, names, present, per=2, extra=(), allow_empty=False):
-    out = set(x for x in extra if x not in present)
+    out = set(x for x in extra if x not in present and x not in LIB_SPECIAL)
     for s in names:
         for p in rng.sample(neighbours(rng, s), per):
             if p not in present and not p.startswith('__') and (IDRE.match(p) or
@@ -237,7 +243,9 @@ def plan_module(rng, name, mode, hi, avoid=(), lo=1):
                 typedefs.append([n, len(typedefs)])
     return {'name': name, 'mode': mode, 'globals': glob, 'typedefs': typedefs, 'sus': sus,
             'anon': anon, 'enums': enums, 'anon_enums': anon_enums, 'includes': [],
-            'shuffle': rng.getrandbits(32)}
+            'shuffle': rng.getrandbits(32),
+            # 'FILE' used without being declared: cffi adds its typedef to the table by itself
+            'file_user': rng.random() < 0.4}
 
 
 # include graphs: entry j lists the (earlier) modules that module j includes; the last module
@@ -332,6 +340,9 @@ def render(plan):
     for n, kw, i in plan.get('anon', []):
         decl.append('typedef %s { short h_[%d]; } %s;' % (kw, i + 1, n))
         types.append(decl[-1])
+    if plan.get('file_user'):
+        decl.append('typedef FILE *Zf_%s_fp;' % plan['name'])
+        types.append('#include <stdio.h>\n' + decl[-1])
     random.Random(plan['shuffle']).shuffle(decl)
     return '\n'.join(decl), '\n'.join(types), '\n'.join(src)
 
